@@ -149,88 +149,104 @@ func VerifH_C20_ApiInTxn() {
 
 // VerifH_C05_ApiFaults — C05 at the API level: collection.Create / Update / Delete called without a transaction (each
 // opens, commits or discards its own) over the transactional store model, with at most one failing store operation (any
-// of the operations the call issues, block puts included) or a failing commit: the call either reports an error and
-// leaves the store exactly as it was and publishes nothing, or reports success with its commit and its notification.
+// of the operations the call issues, block puts included) or a failing commit: the call either reports an error, leaves
+// the store exactly as it was and publishes nothing, or reports success with exactly the effect and the notification of
+// the same call on a store without faults. (A fault need not surface as an error: a failed existence probe in front of an
+// idempotent write is harmless. What must not happen is success with another effect, or an error with an effect.)
 // conf: api (0 create, 1 update, 2 delete), branchable, window (number of store operations covered by the schedule)
 func VerifH_C05_ApiFaults() {
 	api := vConfInt("api")
 	branchable := vConfInt("branchable") != 0
-	e := vNewEnv(vFieldLWW, false)
-	st := vNewStore()
-	bus := &sBus{}
-	d := &DB{rootstore: st, events: bus, signingDisabled: true}
-	def := sDefinition(branchable)
-	c := &collection{db: d, def: def}
-	bg := context.Background()
-	setupC, err := d.NewTxn(bg, false)
-	vBound(err == nil, "setup txn")
-	setup := setupC.(*Txn)
-	sctx := InitContext(bg, setup)
-	vBound(id.SetShortCollectionID(sctx, vColID) == nil, "short collection id")
-	for _, f := range sFields {
-		vBound(id.SetShortFieldID(sctx, 1, f) == nil, "short field id")
-	}
-	vBound(setup.Commit(sctx) == nil, "setup commit")
-
 	val := string([]byte{'a' + vU8("payload")%26})
-	var doc *client.Document
-	if vSymbolic() {
-		docID, perr := client.NewDocIDFromString(uDocIDs[0])
-		vBound(perr == nil, "doc id")
-		doc, err = client.NewDocWithID(docID, def)
-		vBound(err == nil, "doc")
-		vBound(doc.Set(sFields[0], val) == nil, "set")
-	} else {
-		doc, err = client.NewDocFromMap(map[string]any{sFields[0]: val}, def)
-		vBound(err == nil, "doc")
-	}
-	if api != 0 {
-		vBound(c.Create(bg, doc) == nil, "create")
-	}
-	before := sStoreSnapshot(st)
-	events := len(bus.msgs)
-	f := &vFaults{window: vConfInt("window"), max: 1}
 	commitFails := vBool("commit-fails")
-	if commitFails {
-		st.commitErr = vErrInjected
-	} else {
-		st.faults, e.faults = f, f
+	var f *vFaults
+	run := func(faulty bool) (before, after []byte, opErr error, published int) {
+		e := vNewEnv(vFieldLWW, false)
+		st := vNewStore()
+		bus := &sBus{}
+		d := &DB{rootstore: st, events: bus, signingDisabled: true}
+		def := sDefinition(branchable)
+		c := &collection{db: d, def: def}
+		bg := context.Background()
+		setupC, err := d.NewTxn(bg, false)
+		vBound(err == nil, "setup txn")
+		setup := setupC.(*Txn)
+		sctx := InitContext(bg, setup)
+		vBound(id.SetShortCollectionID(sctx, vColID) == nil, "short collection id")
+		for _, fn := range sFields {
+			vBound(id.SetShortFieldID(sctx, 1, fn) == nil, "short field id")
+		}
+		vBound(setup.Commit(sctx) == nil, "setup commit")
+		var doc *client.Document
+		if vSymbolic() {
+			docID, perr := client.NewDocIDFromString(uDocIDs[0])
+			vBound(perr == nil, "doc id")
+			doc, err = client.NewDocWithID(docID, def)
+			vBound(err == nil, "doc")
+			vBound(doc.Set(sFields[0], val) == nil, "set")
+		} else {
+			doc, err = client.NewDocFromMap(map[string]any{sFields[0]: val}, def)
+			vBound(err == nil, "doc")
+		}
+		if api != 0 {
+			vBound(c.Create(bg, doc) == nil, "create")
+		}
+		before = sStoreSnapshot(st)
+		events := len(bus.msgs)
+		if faulty {
+			if commitFails {
+				st.commitErr = vErrInjected
+			} else {
+				f = &vFaults{window: vConfInt("window"), max: 1}
+				st.faults, e.faults = f, f
+			}
+		}
+		switch api {
+		case 0:
+			opErr = c.Create(bg, doc)
+		case 1:
+			vBound(doc.Set(sFields[1], val) == nil, "set")
+			opErr = c.Update(bg, doc)
+		default:
+			_, opErr = c.Delete(bg, doc.ID())
+		}
+		st.faults, e.faults, st.commitErr = nil, nil, nil
+		return before, sStoreSnapshot(st), opErr, len(bus.msgs) - events
 	}
-	var opErr error
-	switch api {
-	case 0:
-		opErr = c.Create(bg, doc)
-	case 1:
-		vBound(doc.Set(sFields[1], val) == nil, "set")
-		opErr = c.Update(bg, doc)
-	default:
-		_, opErr = c.Delete(bg, doc.ID())
-	}
-	st.faults, e.faults, st.commitErr = nil, nil, nil
+	_, cleanAfter, cleanErr, cleanPublished := run(false)
+	vBound(cleanErr == nil, "the call succeeds on a store without faults")
+	before, after, opErr, published := run(true)
 	vCover("called")
-	vBound(f.count <= f.window, "window-covers-all-store-operations")
-	if f.injected > 0 || commitFails {
-		vAssert(opErr != nil, "fault-propagates")
-	} else {
+	if f != nil {
+		vBound(f.count <= f.window, "window-covers-all-store-operations")
+	}
+	eq := func(a, b []byte) bool {
+		if len(a) != len(b) {
+			return false
+		}
+		for i := range a {
+			if a[i] != b[i] {
+				return false
+			}
+		}
+		return true
+	}
+	if commitFails {
+		vAssert(opErr != nil, "failed-commit-is-reported")
+	}
+	if f != nil && f.injected == 0 {
 		vAssert(opErr == nil, "no-fault-no-error")
 	}
-	after := sStoreSnapshot(st)
-	same := len(before) == len(after)
-	for i := 0; same && i < len(before); i++ {
-		same = before[i] == after[i]
-	}
 	if opErr != nil {
-		vAssert(same, "failed-call-leaves-the-store-as-it-was")
-		vAssert(len(bus.msgs) == events, "failed-call-publishes-nothing")
+		vAssert(eq(before, after), "failed-call-leaves-the-store-as-it-was")
+		vAssert(published == 0, "failed-call-publishes-nothing")
 	} else {
-		per := 1
-		if branchable {
-			per = 2
-		}
-		vAssert(!same, "successful-call-has-its-effect")
-		vAssert(len(bus.msgs) == events+per, "successful-call-publishes-its-notification")
+		vAssert(eq(after, cleanAfter), "successful-call-has-exactly-the-effect-of-the-call-without-faults")
+		vAssert(published == cleanPublished, "successful-call-publishes-its-notification")
 	}
-	vObserve("failed", opErr != nil)
+	// (which operation the k-th one is differs between the solver run and the native run — the block store and the
+	// document codec are models in the former — so whether the call failed is not compared between them)
+	vObserve("published-without-faults", cleanPublished)
 }
 
 // redirect target of (*client.Document).GenerateDocID for the C13 job below: the identifier as a function of the content
